@@ -44,18 +44,8 @@ Proof. exact (ms_single (MInsertFile p) s). Qed.
 Lemma ms_remove_dir (p : path) (s : mstate) : mem_step (CRemoveDir p) s = msec_sem (MRemove p) s.
 Proof. exact (ms_single (MRemove p) s). Qed.
 
-Lemma ms_open_file (p : path) (s : mstate) :
-  mem_step (COpenFile p) s =
-  match snd (msec_sem (MSetA p TAuto) s) with
-  | Ok _ => msec_sem (MGetReader p) (fst (msec_sem (MSetA p TAuto) s))
-  | Err e => (fst (msec_sem (MSetA p TAuto) s), Err e)
-  | Panic => (fst (msec_sem (MSetA p TAuto) s), Panic)
-  end.
-Proof.
-  unfold mem_step. cbn [mem_call bind msec_call run]. unfold msec_handler at 1.
-  destruct (msec_sem (MSetA p TAuto) s) as [s1 [u|e|]]; cbn [fst snd run]; try reflexivity.
-  exact (ms_single (MGetReader p) s1).
-Qed.
+Lemma ms_open_file (p : path) (s : mstate) : mem_step (COpenFile p) s = msec_sem (MGetReader p) s.
+Proof. exact (ms_single (MGetReader p) s). Qed.
 
 Lemma ms_unsupported (c : fscall) (s : mstate) :
   match c with CCopyFile _ _ | CMoveFile _ _ | CMoveDir _ _ => True | _ => False end ->
@@ -69,10 +59,6 @@ Proof.
     rewrite ?ms_read_dir, ?ms_append_file, ?ms_metadata, ?ms_set_ctime, ?ms_set_mtime, ?ms_set_atime,
       ?ms_exists, ?ms_remove_file, ?ms_create_dir, ?ms_create_file, ?ms_open_file, ?ms_remove_dir;
     try (match goal with |- wf (fst (msec_sem ?c ?s0)) => apply (msec_wf c s0 Hwf); exact I end); try exact Hwf.
-  - (* open_file *)
-    pose proof (msec_wf (MSetA p TAuto) s Hwf I) as H1.
-    destruct (msec_sem (MSetA p TAuto) s) as [s1 [u|e|]]; cbn [fst snd] in *; try exact H1.
-    apply (msec_wf (MGetReader p) s1 H1 I).
   - exact (msec_wf (MRemove p) s Hwf Hg).
 Qed.
 
@@ -97,9 +83,6 @@ Proof.
     rewrite ?ms_read_dir, ?ms_append_file, ?ms_metadata, ?ms_set_ctime, ?ms_set_mtime, ?ms_set_atime,
       ?ms_exists, ?ms_remove_file, ?ms_create_dir, ?ms_create_file, ?ms_open_file, ?ms_remove_dir;
     try (match goal with |- fst (msec_sem ?c ?s0) !! _ = _ => apply (msec_frame c s0); cbn; set_solver end); try reflexivity.
-  pose proof (msec_frame (MSetA p TAuto) s q ltac:(set_solver)) as H1.
-  destruct (msec_sem (MSetA p TAuto) s) as [s1 [u|e|]]; cbn [fst snd] in *; try exact H1.
-  rewrite (msec_frame (MGetReader p)) by set_solver. exact H1.
 Qed.
 
 (** ** timestamps (C19): setting one field changes that field of that entry only *)
@@ -173,7 +156,4 @@ Proof.
     rewrite ?ms_read_dir, ?ms_append_file, ?ms_metadata, ?ms_set_ctime, ?ms_set_mtime, ?ms_set_atime,
       ?ms_exists, ?ms_remove_file, ?ms_create_dir, ?ms_create_file, ?ms_open_file, ?ms_remove_dir;
     try (match goal with |- snd (msec_sem ?c ?s0) <> _ => apply (msec_no_panic c s0) end); try (unfold fail; cbn; discriminate).
-  pose proof (msec_no_panic (MSetA p TAuto) s) as H1.
-  destruct (msec_sem (MSetA p TAuto) s) as [s1 [u|e|]]; cbn [fst snd] in *; try discriminate; try congruence.
-  apply (msec_no_panic (MGetReader p)).
 Qed.
